@@ -160,7 +160,7 @@ func c06MapBounded(ck *Checker, rep *Report, opts *Options) {
 	run.Env = append(os.Environ(), "VERIF_C06=1", "VERIF_C06_SEEDS="+seeds, "VERIF_C06_OPS="+ops, fmt.Sprintf("VERIF_SEED=%d", opts.Seed))
 	out, _ := run.CombinedOutput()
 	parseBounded(rep, string(out), "c06map", 1, "finite-map-refinement",
-		seeds+" pseudo-random sequences of "+ops+" operations (assign, delete, lookup, len, clear, bulk load/delete, range loops with and without mutation by the loop body, loops started in the middle of a grow, insertion bursts during a loop) for each of 28 configurations: 5 hash functions from constant to well mixed x pointer-free or pointer-carrying buckets x key domains of 12, 70 and 400; uint64 keys and values; compared after every operation with Go's own map")
+		seeds+" pseudo-random sequences of "+ops+" operations (assign, delete, lookup, len, clear, bulk load/delete, range loops with and without mutation by the loop body, loops started in the middle of a grow, insertion bursts during a loop) for each of 28 configurations: 5 hash functions from constant to well mixed x pointer-free or pointer-carrying buckets x key domains of 12, 70 and 400; uint64 keys and values; compared after every operation with Go's own map; plus map[float64]int64 with NaN keys (each insertion a new entry), +0/-0 and ordinary floats: 420 maps of 1..140 entries iterated at every stage of a doubling grow with a write (delete of an absent key, overwrite, new NaN entry) in every loop step - every entry present for the whole loop exactly once, none twice, len and failed NaN lookups")
 	if m := regexp.MustCompile(`ZZSTATS (.*)`).FindStringSubmatch(string(out)); m != nil {
 		rep.Extra["map_refinement_run"] = m[1]
 	}
@@ -263,5 +263,5 @@ func c06KeyKinds(ck *Checker, rep *Report, opts *Options) {
 	run.Env = append(os.Environ(), "VERIF_C06=1")
 	out, _ := run.CombinedOutput()
 	parseBounded(rep, string(out), "c06keys", 1, "key-kinds-refinement",
-		"8 scenarios of 6000 pseudo-random operations (assign, lookup, delete, range, clear) over 300 keys each: struct keys with padding before a string, interior padding, float fields, blank fields, nested structs, padding-free structs, the same key presented twice with different padding, interface keys holding structs; keys presented in temporaries with zeroed and with garbage padding; compared after every operation with Go's own map")
+		"8 scenarios of 6000 pseudo-random operations (assign, lookup, delete, range, clear) over 300 keys each: struct keys with padding before a string, interior padding, float fields, blank fields, nested structs, padding-free structs, the same key presented twice with different padding, interface keys holding structs; keys presented in temporaries with zeroed and with garbage padding; compared after every operation with Go's own map; plus map[float64]int64 with NaN keys (each insertion a new entry), +0/-0 and ordinary floats: 420 maps of 1..140 entries iterated at every stage of a doubling grow with a write (delete of an absent key, overwrite, new NaN entry) in every loop step - every entry present for the whole loop exactly once, none twice, len and failed NaN lookups")
 }
